@@ -29,6 +29,10 @@ CHECKS = {
    technique="deterministic simulation with fault injection: adversarial grammar- and byte-mutated peer scripts, one injected fault per run whose kind and script step index are enumerated systematically over the run index, seeded chunkings/interleavings; oracles: caught panics (overflow checks on) and two-stage bounded liveness at exact executor quiescence",
    text="Real h3 servers and clients (documented call patterns, whole and split streams, drawn behaviour after an error) face a scripted adversary: valid traffic mutated at the frame, varint, QPACK-representation and byte level on request, control, QPACK, push, WebTransport and unknown streams, with FIN, RESET, STOP_SENDING, application close (NO_ERROR / error codes), idle timeout, transport internal/undefined errors and stream-level read/write errors injected at every step index 0..23 in systematic order. No h3 call may panic or overflow (release build with overflow checks and debug assertions); after the peer has ended or aborted every stream and granted all credit, every call that waits on a stream must have completed at exact quiescence (a diagnostic re-poll sweep tells a lost wake-up from a missing completion rule); after the connection is closed every h3 future must have completed. Sampling of scripts and schedules; fault kind x step index enumerated.",
    note="Trusted: SimQuic (non-empty chunks, valid ids), simexec's quiescence detection, the application models. Which error is returned is not judged here."),
+ "C07": dict(level="exploration", engine="E1", design_ref="DESIGN.md §5 C07",
+   technique="deterministic simulation with fault injection: 2-4 concurrent requests between the real endpoint and a reference peer, stream-scoped faults (RESET at a drawn byte offset, STOP_SENDING, malformed message, oversized section, FIN before HEADERS) on a drawn subset, all task/delivery interleavings drawn; oracle: per-request history vs. the generated plan, absence of close(), driver results, echo responses parsed from the wire by the reference codecs",
+   text="The real h3 server (echo application) or client (concurrent split requests) handles 2-4 requests against a reference peer. A drawn subset receives exactly one stream-scoped fault; what the application then does with the faulty handle (drop, finish, retry a send) is drawn. Judged at exact quiescence before teardown: the faulty request reports a stream-level error with the appropriate code (remote-terminate with the peer's code, H3_MESSAGE_ERROR with reset+stop observed by the peer, header-too-big with a 431 on the wire, H3_REQUEST_INCOMPLETE), the connection is not closed, the driver reports no error, and every healthy request delivers exactly its own headers, body bytes and trailers and its echo response is complete and correct on the wire. Sampling, not proof.",
+   note="Trusted: checks/c07.rs plans and judges, refs codecs, SimQuic, simexec. Client role: wire codes of stop_sending after a malformed/oversized response are not judged; a STOP_SENDING arriving after h3 finished sending may go unnoticed; the peer only stops streams that already exist."),
  "C14": dict(level="exploration", engine="E1", design_ref="DESIGN.md §5 C14",
    technique="deterministic simulation: seeded search over generated API-call programs, builder configurations and per-call write-acceptance/pend patterns of the transport; history check of the complete per-stream byte logs by a reference RFC 9114 parser",
    text="Generated programs (1-4 exchanges in both roles, empty and multi-chunk buffers, trailers, streams abandoned mid-body, split halves, server shutdown(n) and client shutdown at drawn moments, drawn builder options) run on real h3 endpoints over SimQuic, which accepts writes down to one byte at a time, splits frame headers, pends and withholds stream credit. Afterwards every byte either endpoint wrote on every stream is parsed with the reference codecs: legal uni stream types, SETTINGS first and only allowed frames on the control stream (never finished/reset), only complete HEADERS/DATA/reserved frames in legal order on request streams, length fields consistent, reserved identifiers of the 0x1f*N+0x21 form, no HTTP/2 types or settings, GOAWAY ids non-increasing, DATA payloads concatenating to exactly what send_data was given, HEADERS decoding to what was submitted, and no misuse of the transport traits (overlapping send_data). Sampling, not proof.",
